@@ -29,9 +29,9 @@ type PFIn struct {
 }
 
 type PFObs struct {
-	Panic bool   `json:"panic"`
-	Res   string `json:"res"`   // "doc" | "verifier" | "refused"
-	Class string `json:"class"` // of a refusal, from the error text (informative only: wording is not judged)
+	Panic    bool   `json:"panic"`
+	Res      string `json:"res"`   // "doc" | "verifier" | "refused"
+	Class    string `json:"class"` // of a refusal, from the error text (informative only: wording is not judged)
 	From     string `json:"from"`
 	Verified string `json:"verified"` // "n/a" | "pass" | "fail": a good signature under the verifier that was built
 	Note     string `json:"-"`
